@@ -42,7 +42,9 @@ CONSTANTS
   MaxWorkers,     \* ServerOptions.MaxWorkers (0 = pool disabled)
   MemLimit,       \* request memory limit, in units
   Take(_),        \* call id -> units taken for its request = max(len, RequestBufSize)
-  CtlTake         \* units taken by a cancel / FIN packet (= RequestBufSize)
+  CtlTake,        \* units taken by a cancel / FIN packet (= RequestBufSize)
+  AllowOrphans    \* FALSE: requests unread when the server side of a connection stops are lost
+                  \* (bounded model checking); TRUE: the old receive loop may still read them
 
 NoId == 0
 
@@ -407,7 +409,7 @@ SrvConnStop(c) ==
                IF OwnerOf(id) # c THEN srv[id]
                ELSE IF srv[id].st = "resp" THEN [srv[id] EXCEPT !.st = "gone", !.live = FALSE]
                ELSE [srv[id] EXCEPT !.live = FALSE]]
-  /\ orph' = orph \cup {p.q : p \in {x \in Range(c2s[c]) : x.k = "req"}}
+  /\ orph' = IF AllowOrphans THEN orph \cup {p.q : p \in {x \in Range(c2s[c]) : x.k = "req"}} ELSE orph
   /\ c2s' = [c2s EXCEPT ![c] = <<>>]
   /\ link' = [link EXCEPT ![c] = "broken"]
   /\ UNCHANGED <<call, writeQ, inFlight, cli, s2c, proxy, pool, mem, srvSt>>
